@@ -136,6 +136,11 @@ CORPUS = [
      "history": [["bind", [((True, False, False, True), (False, True, True, True))]], ["bind", [((False, False, True, False), (True, True, False, False))]]], "feat": ["matrix_param"]},
     {"kind": "hist", "src": "def f(c: Parameter[List[List[Qint[2]]]], i: Qint[2]) -> Qint[2]:\n    s = 0\n    for r in c:\n        s = s ^ r[i]\n    return s + len(c)\n", "args": [["c", [["Qint2"] * 3] * 2], ["i", "Qint2"]], "ret": "Qint2", "params": [0],
      "history": [["bind", [((1, 2, 3), (3, 0, 1))]], ["bind", [((0, 0, 1), (1, 3, 2))]], ["bind", [((0, 2, 2), (1, 1, 3))]], ["bind", [((0, 1, 1), (2, 0, 0))]], ["bind", [((3, 3, 3), (0, 3, 3))]]], "feat": ["matrix_param"]},
+    # a list / tuple parameter reassigned from its own elements
+    {"kind": "hist", "src": "def f(c: Parameter[Qlist[Qint[4], 2]], a: Qint[4]) -> Qint[4]:\n    c = [c[1], c[0] + a]\n    return c[0] + c[1]\n", "args": [["c", ["Qint4", "Qint4"]], ["a", "Qint4"]], "ret": "Qint4", "params": [0],
+     "history": [["bind", [(0, 5)]], ["bind", [(3, 1)]], ["bind", [(2, 2)]], ["bind", [(0, 5)]]], "feat": ["param_reassigned"]},
+    {"kind": "hist", "src": "def f(c: Parameter[Tuple[bool, bool]], a: bool) -> bool:\n    c = (c[1] ^ a, c[0])\n    return c[0] and not c[1]\n", "args": [["c", ["bool", "bool"]], ["a", "bool"]], "ret": "bool", "params": [0],
+     "history": [["bind", [(True, False)]], ["bind", [(False, False)]], ["bind", [(True, True)]]], "feat": ["param_reassigned"]},
     # bound lists with equal neighbouring entries, looked up through a subscript expression / a loop variable
     {"kind": "hist", "src": "def f(c: Parameter[Qlist[Qint[2], 4]], a: Tuple[Qint[2], bool]) -> Qint[2]:\n    return c[a[0]]\n", "args": [["c", ["Qint2"] * 4], ["a", ["Qint2", "bool"]]], "ret": "Qint2", "params": [0],
      "history": [["bind", [(0, 1, 1, 2)]], ["bind", [(2, 0, 3, 3)]], ["bind", [(1, 2, 3, 2)]], ["bind", [(0, 1, 1, 2)]], ["bind", [(3, 3, 0, 0)]]], "feat": ["list_param_equal_neighbours"]},
